@@ -37,7 +37,7 @@ PROPS = {
                 "get_rounding_term (hooks) on 2^(b-1) and 2^b-1 for every bit length b <= 40000 (quick) / 400000 (thorough) plus random b up to 2*10^6 / 2*10^7 - the extreme "
                 "inputs for the f64 digit estimate, judged by 10^(d-1) <= n < 10^d; re-scaling through the owned value (with_scale) and the reference view (to_owned_with_scale) by every gap -45..45 and the gaps around 256/512/590 (extension exact, reduction truncates); random decimals up to 5000 digits with up to 5000 trailing zeros, exact scale / precision "
                 "extensions by 0..5000. Non-trivial = multi-digit / has trailing zero / actually extends.",
-        "trusted_base": TB_COMMON + ["f64 arithmetic of the digit estimate: the scalar condition 10^est(b) <= 2^b is proved for the real-valued formula and exercised on the real code for every bit length in range, not proved for f64"],
+        "trusted_base": TB_COMMON + ["the f64 digit estimate is MODELLED through the rounding primitive F64.rne (u64->f64 conversion and IEEE division as correctly rounded operations); under that model the scalar condition is a theorem up to 2^40 bits (C18_est_code); the driver compares it with Lean hardware doubles per case (tag +hardware-estimate-differs)"],
         "assumptions": ASSUME_COMMON,
     },
     "C07": {
@@ -45,7 +45,7 @@ PROPS = {
                 "with_precision_round, Context::round_decimal / round_decimal_ref (decimal, reference, BigInt), BigDecimalRef::round_with_context, Context::add_refs / "
                 "add_refs_into (sums needing more than p digits) and with_prec (each magnitude with both signs); the discarded tail is 5000..0 / 4999..9 / 5000..01 / 0..0 / 9..9 / random, "
                 "heads include all-nines (carry into a new digit). Observable: exact (int, scale); for sums the value. Non-trivial = non-zero input with more than p digits.",
-        "trusted_base": TB_COMMON + ["f64 digit estimate inside get_rounding_term/digits(): scalar condition EstOK (see C18)"],
+        "trusted_base": TB_COMMON + ["f64 digit estimate inside get_rounding_term/digits(): modelled through F64.rne; EstOK proved for it up to 2^40 bits (C18_est_code, C07_withPrec_code)"],
         "assumptions": ASSUME_COMMON,
     },
     "C09": {
@@ -73,11 +73,11 @@ PROPS = {
         "assumptions": ASSUME_COMMON,
     },
     "C02": {
-        "rule": "pairs (a,b) through ==, !=, <, <=, >, >=, cmp, partial_cmp, max, min on values and ==/cmp on references: for every k<20, 1..4 limbs and every limb position the "
+        "rule": "pairs (a,b) through ==, !=, <, <=, >, >=, cmp, partial_cmp, max, min on values and ==/cmp on references: the bit-length shortcut itself through a hook on a = 2^N - 1, b = 2^j with N within 2 of bits(b*10^k) for every k <= 400, random k to 10^7 and the scale differences where the f64 product overshoots (178898934; 475127550 in thorough); for every k<20, 1..4 limbs and every limb position the "
                 "32-bit limbs floor(2^64/10^k)-1,+0,+1 and 2^32-1 (value-equal partner x*10^k at scale+k, and a one-ulp neighbour); value-equal pairs with scale gaps 1..19 and "
                 "20..3000 (19/20/21, 589..608 switches); ULP neighbours; sign flips; zeros with any scale; operands straddling 2^64 and 2^128; one differing far digit; scale "
                 "differences above 2^63; sort() of 2..10 decimals with value-equal twins; negated and abs reference views compared with the owned results. Observable: all fifteen answers exactly. Non-trivial = both operands non-zero.",
-        "trusted_base": TB_COMMON + ["f64 product LOG2_10*k in highest_bit_lessthan_scaled: scalar condition 2^pre(k) <= 10^k (PreOK)"],
+        "trusted_base": TB_COMMON + ["f64 product LOG2_10*k in highest_bit_lessthan_scaled: modelled through F64.rne (u64->f64 conversion and IEEE multiplication as correctly rounded operations); PreOK proved for it up to scale differences of 2^40 (C02_pre_code)"],
         "assumptions": ASSUME_COMMON + ["operands have fewer than 2^63 digits"],
     },
     "C03": {
